@@ -1135,6 +1135,7 @@ type c10ChildJob struct {
 	extra  bool  // inputs also over the pattern's own first letters
 	noSlow bool  // leave c10SlowPair pairs out
 	budget int64 // step budget per scan (0 = the default)
+	lang   bool  // inputs = the pattern-derived set of lang.go (witnesses, their prefixes and one-edit neighbours)
 }
 
 func c10ChildJobs(thorough bool) []c10ChildJob {
@@ -1145,6 +1146,7 @@ func c10ChildJobs(thorough bool) []c10ChildJob {
 		{name: "CORPUS", items: c10CorpusItems, opts: all, optTag: "all 512 regex-option subsets", lvl: c10LvlCompile, noSlow: true},
 		{name: "CORPUS", items: c10CorpusItems, opts: cov, optTag: fmt.Sprintf("covering %d", len(cov)), lvl: c10LvlS, L: 1, extra: true},
 		{name: "CORPUS", items: c10CorpusItems, opts: c10Fewer, optTag: "4 sets", lvl: c10LvlF, L: 1, replL: 0, extra: true},
+		{name: "CORPUS pattern-derived inputs", items: c10CorpusItems, opts: c10Fewer[:2], optTag: "2 sets (none, RE2)", lvl: c10LvlS, L: 0, lang: true},
 	}
 	if thorough {
 		jobs[0].items = c10DeepItemsThorough
@@ -1266,6 +1268,24 @@ func c10ChildMain(spec c10ChildSpec) {
 			inputs = c10ItemInputs(it, jb.L, jb.extra)
 			lastItem = i
 			res.Items++
+		}
+		if jb.lang {
+			// short and medium inputs in which the pattern's own tokens occur (find modes keyed on literals are
+			// otherwise never entered): witnesses of the pattern as parsed under this option set, their prefixes
+			// and one-edit neighbours
+			inputs = nil
+			if utf8.ValidString(it.Src) && len(it.Src) <= 300 {
+				li, _, _ := langInputs(it.Src, o)
+				for k, in := range li {
+					if k >= 200 {
+						break
+					}
+					inputs = append(inputs, string(in))
+				}
+			}
+			if len(inputs) == 0 {
+				inputs = []string{""}
+			}
 		}
 		if (spec.Deadline > 0 && time.Now().Unix() > spec.Deadline) || sh.abort.Load() {
 			done = false
@@ -1624,7 +1644,7 @@ func runC10(c *Ctx) {
 	if sel("p") {
 		c10RunProps(c, sh, thorough)
 	}
-	for _, ji := range []int{0, 2, 3} {
+	for _, ji := range []int{0, 2, 3, 4} {
 		if sel(fmt.Sprintf("c%d", ji)) {
 			c10RunChildJob(c, &childTotal, ji, thorough)
 		}
